@@ -80,7 +80,7 @@ class CaseHang(BaseException):
     """Raised by the real-time watchdog inside the code under test when one case does not come back."""
 
 
-HANG_S = float(os.environ.get('VERIF_HANG_S', '180'))
+HANG_S = float(os.environ.get('VERIF_HANG_S', '600'))
 
 
 def _on_alarm(signum, frame):
